@@ -741,6 +741,8 @@ const TRIVIA_INLINE: &[(&str, &[&str])] = &[
 const TRIVIA_NEWLINE: &[(&str, &[&str])] = &[
     ("newline", &["\n", "\n\n", "\r\n"]),
     ("line-comment", &["// note\n", "//\n", " // a /* b\n", "// crlf\r\n"]),
+    // a line comment continued over a spliced line break is still one comment
+    ("line-comment-spliced", &["// first \\\n second\n", "// a \\\r\n b \\\n c\r\n"]),
     ("mixed-newline", &[" // c\n\t/* d */ \n"]),
 ];
 
@@ -1019,8 +1021,12 @@ fn run_meta_files(
 
 /// a case without an edit: the diagnostic of the program itself must be at the given place
 fn run_anchor(prefix: &str, files: &Files, base: &CompileOutcome, anchor: (usize, usize, usize), tag: &str) -> MetaResult {
+    run_anchor_block(prefix, files, base, 0, anchor, tag)
+}
+
+fn run_anchor_block(prefix: &str, files: &Files, base: &CompileOutcome, block: usize, anchor: (usize, usize, usize), tag: &str) -> MetaResult {
     let v = verdict(base, files);
-    let judged = anchor_check(files, base, anchor);
+    let judged = anchor_check_block(files, base, block, anchor);
     let (oracle, failed) = match &judged {
         Ok(()) => ("ok".to_string(), false),
         Err(d) => (format!("FAIL:{}", d), true),
@@ -1301,6 +1307,8 @@ struct OwnProg {
     mode: Mode,
     /// text whose first occurrence (file index, marker) is where the first diagnostic has to point; several = any of them
     anchors: Vec<(usize, String)>,
+    /// (message index, file index, marker): where a note has to point
+    note: Option<(usize, usize, String)>,
 }
 
 fn own_program(family: &str, rng: &mut Rng) -> Option<OwnProg> {
@@ -1313,7 +1321,7 @@ fn own_program(family: &str, rng: &mut Rng) -> Option<OwnProg> {
             _ => format!("/* block {} */\n", i),
         });
     }
-    let one = |src: String, anchors: Vec<(usize, String)>| Some(OwnProg { files: vec![("main.rssl".to_string(), src)], mode: Mode::NoPipeline, anchors });
+    let one = |src: String, anchors: Vec<(usize, String)>| Some(OwnProg { files: vec![("main.rssl".to_string(), src)], mode: Mode::NoPipeline, anchors, note: None });
     let bad = format!("undeclared_{}", n);
     if let Some(i) = family.strip_prefix("ty_single#") {
         let src = TY_SINGLE.get(i.parse::<usize>().ok()?)?;
@@ -1321,12 +1329,13 @@ fn own_program(family: &str, rng: &mut Rng) -> Option<OwnProg> {
             files: vec![("main.rssl".to_string(), format!("{}{}[numthreads(1, 1, 1)]\nvoid entry()\n{{\n}}\nPipeline P\n{{\n    ComputeShader = entry;\n}}\n", head, src))],
             mode: Mode::All,
             anchors: vec![],
+            note: None,
         });
     }
     if let Some(i) = family.strip_prefix("lx_single#") {
         let src = LX_SINGLE.get(i.parse::<usize>().ok()?)?;
         let before = if rng.chance(1, 2) { "int before_it() { return 0; }\n" } else { "" };
-        return Some(OwnProg { files: vec![("main.rssl".to_string(), format!("{}{}{}int f() {{ return 1; }}\n", head, before, src))], mode: Mode::NoPipeline, anchors: vec![] });
+        return Some(OwnProg { files: vec![("main.rssl".to_string(), format!("{}{}{}int f() {{ return 1; }}\n", head, before, src))], mode: Mode::NoPipeline, anchors: vec![], note: None });
     }
     match family {
         "mx_obj_body" => one(format!("{}#define BAD_{} (1 + {})\nint f()\n{{\n    int a = 2;\n    return a + BAD_{};\n}}\n", head, n, bad, n), vec![(0, bad.clone())]),
@@ -1346,6 +1355,7 @@ fn own_program(family: &str, rng: &mut Rng) -> Option<OwnProg> {
             ],
             mode: Mode::NoPipeline,
             anchors: vec![(1, bad.clone())],
+            note: None,
         }),
         "mx_use_in_include" => Some(OwnProg {
             files: vec![
@@ -1354,6 +1364,7 @@ fn own_program(family: &str, rng: &mut Rng) -> Option<OwnProg> {
             ],
             mode: Mode::NoPipeline,
             anchors: vec![(0, bad.clone())],
+            note: None,
         }),
         "mx_type_error" => one(
             format!("{}#define MUL_{}(a, b) ((a) * (b))\nstruct S {{ int m; }};\nint f()\n{{\n    S s;\n    return MUL_{}(s, 2);\n}}\n", head, n, n),
@@ -1381,7 +1392,8 @@ fn own_program(family: &str, rng: &mut Rng) -> Option<OwnProg> {
                 ("types.h".to_string(), format!("// shared types\n\nstruct Shared_{}\n{{\n    int a;\n}};\n", n)),
             ],
             mode: Mode::NoPipeline,
-            anchors: vec![],
+            anchors: vec![(0, format!("Shared_{}", n))],
+            note: Some((1, 1, format!("Shared_{}", n))),
         }),
         "nt_redef_in_include" => Some(OwnProg {
             files: vec![
@@ -1389,7 +1401,8 @@ fn own_program(family: &str, rng: &mut Rng) -> Option<OwnProg> {
                 ("more.h".to_string(), format!("\n\nstatic float g_value_{} = 2.0;\n", n)),
             ],
             mode: Mode::NoPipeline,
-            anchors: vec![],
+            anchors: vec![(1, format!("g_value_{}", n))],
+            note: None,
         }),
         "nt_overload_across_files" => Some(OwnProg {
             files: vec![
@@ -1398,7 +1411,8 @@ fn own_program(family: &str, rng: &mut Rng) -> Option<OwnProg> {
                 ("b.h".to_string(), format!("\nvoid pick_{}(int3 p, int2 q)\n{{\n}}\n", n)),
             ],
             mode: Mode::NoPipeline,
-            anchors: vec![],
+            anchors: vec![(0, format!("pick_{}(v", n))],
+            note: Some((2, 2, format!("pick_{}", n))),
         }),
         "nt_same_file" => one(format!("{}int twice_{}(int p)\n{{\n    return p;\n}}\n\n\nint twice_{}(int p)\n{{\n    return p + 1;\n}}\n", head, n, n), vec![]),
         "lt_no_final_newline" => {
@@ -1421,6 +1435,7 @@ fn own_program(family: &str, rng: &mut Rng) -> Option<OwnProg> {
                 files: vec![("main.rssl".to_string(), format!("{}int f() {{ return 2; }}\n{}", head, last)), ("tail.h".to_string(), inc.to_string())],
                 mode: Mode::NoPipeline,
                 anchors: vec![],
+                note: None,
             })
         }
         "lt_empty_files" => {
@@ -1430,6 +1445,7 @@ fn own_program(family: &str, rng: &mut Rng) -> Option<OwnProg> {
                 files: vec![("main.rssl".to_string(), main.to_string()), ("empty.h".to_string(), inc.to_string())],
                 mode: if rng.chance(1, 2) { Mode::NoPipeline } else { Mode::All },
                 anchors: vec![],
+                note: None,
             })
         }
         "lt_error_at_eof" => {
@@ -1479,6 +1495,7 @@ fn own_program(family: &str, rng: &mut Rng) -> Option<OwnProg> {
             ],
             mode: Mode::NoPipeline,
             anchors: vec![],
+            note: None,
         }),
         "lt_tokens" => {
             // every token shape next to every other: numbers with suffixes, strings, operators that could merge
@@ -1512,12 +1529,13 @@ fn family_source(kind: &str, family: &str, seed: u64) -> Option<Source> {
     let mut r = Rng::new(seed);
     if kind == "diag" {
         let p = diag::diag_program(family, &mut r)?;
-        Some(Source { files: p.files, mode: Mode::All, layout: p.layout, tag: format!("diag:{}:{}", family, seed), clean: None, anchor: None })
+        Some(Source { files: p.files, mode: Mode::All, layout: p.layout, tag: format!("diag:{}:{}", family, seed), clean: None, anchor: None, note_anchor: None })
     } else {
         let p = own_program(family, &mut r)?;
         // where the first diagnostic has to point: the first marker that exists (exact position)
         let anchor = p.anchors.iter().find_map(|(fi, m)| p.files[*fi].1.find(m.as_str()).map(|o| (*fi, o, o)));
-        Some(Source { files: p.files, mode: p.mode, layout: false, tag: format!("own:{}:{}", family, seed), clean: None, anchor })
+        let note_anchor = p.note.as_ref().and_then(|(b, fi, m)| p.files[*fi].1.find(m.as_str()).map(|o| (*b, *fi, o, o)));
+        Some(Source { files: p.files, mode: p.mode, layout: false, tag: format!("own:{}:{}", family, seed), clean: None, anchor, note_anchor })
     }
 }
 
@@ -1531,6 +1549,8 @@ struct Source {
     /// (file index, lowest and highest admissible offset)
     clean: Option<Files>,
     anchor: Option<(usize, usize, usize)>,
+    /// where a further message (note) of the diagnostic has to point: (message index, file, lo, hi)
+    note_anchor: Option<(usize, usize, usize, usize)>,
 }
 
 /// where the diagnostic of an injected error belongs: the offending token when it is known exactly,
@@ -1594,12 +1614,20 @@ fn anchor_message_matches(tag: &str, base: &CompileOutcome) -> bool {
 }
 
 fn anchor_check(files: &Files, base: &CompileOutcome, anchor: (usize, usize, usize)) -> Result<(), String> {
+    anchor_check_block(files, base, 0, anchor)
+}
+
+/// message number `block` of the diagnostic (0 = the error, 1.. = its notes) has to point into `anchor`
+fn anchor_check_block(files: &Files, base: &CompileOutcome, block: usize, anchor: (usize, usize, usize)) -> Result<(), String> {
     let (fi, lo, hi) = anchor;
     let what = format!("{} offsets {}..{}", files[fi].0, lo, hi);
     match base {
         CompileOutcome::Err(e) => {
             let blocks = parse_diag(e).ok_or_else(|| format!("[diagnostic not at the injected construct] unpositioned text {}", clip(e, 80)))?;
-            match &blocks[0].loc {
+            if block >= blocks.len() {
+                return Err(format!("[diagnostic not at the injected construct] message {} is missing ({} messages)", block, blocks.len()));
+            }
+            match &blocks[block].loc {
                 Some((f, l, c)) => {
                     if *f != files[fi].0 {
                         return Err(format!("[diagnostic names the wrong file] {}:{}:{} for an error in {}", f, l, c, what));
@@ -1609,7 +1637,7 @@ fn anchor_check(files: &Files, base: &CompileOutcome, anchor: (usize, usize, usi
                         _ => Err(format!("[diagnostic not at the injected construct] {}:{}:{} for an error at {}", f, l, c, what)),
                     }
                 }
-                None => Err(format!("[diagnostic not at the injected construct] no position for an error at {} ({})", what, blocks[0].msg)),
+                None => Err(format!("[diagnostic not at the injected construct] no position for an error at {} ({})", what, blocks[block].msg)),
             }
         }
         CompileOutcome::Ok(_) => Err("[diagnostic not at the injected construct] the erroneous program is accepted".into()),
@@ -1651,7 +1679,7 @@ fn gen_source(rng: &mut Rng, hist: &mut Hist) -> Source {
     } else {
         hist.add("inject=none");
     }
-    Source { files, mode, layout: false, tag, clean, anchor }
+    Source { files, mode, layout: false, tag, clean, anchor, note_anchor: None }
 }
 
 // ------------------------------------------------------------------------------------------------
@@ -1920,6 +1948,12 @@ fn run_source(src: &Source, tgt: Tgt, rng: &mut Rng, out: &mut Out, hist: &mut H
         hist.add("anchor-case");
         let tag = format!("{},anchor:{}:{}:{}", src.tag, anchor.0, anchor.1, anchor.2);
         let r = run_anchor(&prefix, files, &base, anchor, &tag);
+        emit(out, hist, r);
+    }
+    if let Some((block, fi, lo, hi)) = src.note_anchor {
+        hist.add("anchor-case(note)");
+        let tag = format!("{},anchorb:{}:{}:{}:{}", src.tag, block, fi, lo, hi);
+        let r = run_anchor_block(&prefix, files, &base, block, (fi, lo, hi), &tag);
         emit(out, hist, r);
     }
     if info.iter().any(|i| !i.complete) {
@@ -2633,6 +2667,14 @@ fn replay(lines: Vec<String>, out: &mut Out, hist: &mut Hist) {
                 let compile_fn = |fs: &Files| compile_files(fs, tgt, &mode, layout);
                 let base = compile_fn(&files);
                 let prefix = format!("C14.meta\t{}\t{}\t{}", tgt.name(), show_mode(&mode, layout), enc_files(&files));
+                if let Some(a) = tag.split(',').find_map(|t| t.strip_prefix("anchorb:")) {
+                    let v: Vec<usize> = a.split(':').filter_map(|x| x.parse().ok()).collect();
+                    if v.len() == 4 && v[1] < files.len() && edits.is_empty() {
+                        let r = run_anchor_block(&prefix, &files, &base, v[0], (v[1], v[2], v[3]), tag);
+                        emit(out, hist, r);
+                        continue;
+                    }
+                }
                 if let Some(a) = tag.split(',').find_map(|t| t.strip_prefix("anchor:")) {
                     let v: Vec<usize> = a.split(':').filter_map(|x| x.parse().ok()).collect();
                     if v.len() == 3 && v[0] < files.len() && edits.is_empty() {
@@ -2651,6 +2693,17 @@ fn replay(lines: Vec<String>, out: &mut Out, hist: &mut Hist) {
                 };
                 let r = run_meta_files(&prefix, &files, fi, &edits, tag, &compile_fn, &base, lines_mode, &|e| describe_edits(&text, e, &macros));
                 emit(out, hist, r);
+            }
+            // manual probing only: the full outcome of one compilation
+            "C14.show" if f.len() >= 4 => {
+                if let (Some(tgt), Some((mode, layout)), Some(files)) = (Tgt::parse(f[1]), parse_mode(f[2]), dec_files(f[3])) {
+                    let o = match compile_files(&files, tgt, &mode, layout) {
+                        CompileOutcome::Ok(p) => format!("ok: {}", p.iter().map(|x| one_line(&x.text())).collect::<Vec<_>>().join(" ### ")),
+                        CompileOutcome::Err(e) => format!("err: {}", one_line(&e)),
+                        CompileOutcome::Panic(p) => format!("panic: {}", p),
+                    };
+                    out.case(&line, &o, "SKIP:probe");
+                }
             }
             "C14.lex" if f.len() >= 3 => {
                 if let (Some(text), Some(edits)) = (unhex(f[1]).and_then(|b| String::from_utf8(b).ok()), dec_edits(f[2])) {
@@ -2728,7 +2781,7 @@ pub fn run(args: &Args, out: &mut Out) {
                     continue;
                 }
                 rejected += 1;
-                let source = Source { files: vec![("type_test.rssl".to_string(), src.clone())], mode: Mode::NoPipeline, layout: false, tag: format!("repo-rejected:{}:{}", rel.rsplit('/').next().unwrap_or(""), i), clean: None, anchor: None };
+                let source = Source { files: vec![("type_test.rssl".to_string(), src.clone())], mode: Mode::NoPipeline, layout: false, tag: format!("repo-rejected:{}:{}", rel.rsplit('/').next().unwrap_or(""), i), clean: None, anchor: None, note_anchor: None };
                 run_source(&source, ALL_TARGETS[i % 4], &mut rng, out, &mut hist, 1, if thorough { 9 } else { 4 });
             }
         }
